@@ -13,7 +13,7 @@ import json
 from .. import common as C
 
 PROPS = ["theories/Props/C05.v"]
-FIELDS = ["id", "kind", "a1", "a2", "a3", "a4", "a5", "cls", "r1", "r2", "direct", "detail"]
+FIELDS = ["id", "kind", "a1", "a2", "a3", "a4", "a5", "cls", "r1", "r2", "direct", "detail", "seq"]
 
 ARGN = {
     "igeenc": ["key", "iv", "data", "out_len", "out_fill"],
@@ -62,7 +62,23 @@ def key_of(r):
     return "input:%s:%s" % (r["kind"], h)
 
 
-def replay_obj(r, expected, got, oracle):
+def seq_text(calls):
+    out = []
+    for i, c in enumerate(calls):
+        names = ARGN.get(c[0], [])
+        args = ", ".join("%s=%s" % (names[j] if j < len(names) else "a%d" % (j + 1), (c[1 + j] if len(c[1 + j]) <= 72 else c[1 + j][:64] + "..(%dB)" % blen(c[1 + j])))
+                         for j in range(5) if c[1 + j] != "-" or j < len(names))
+        out.append("%d. %s(%s)" % (i + 1, FUNC.get(c[0], c[0]).split(" ")[0], args))
+    return "; ".join(out)
+
+
+def replay_obj(r, expected, got, oracle, prefix=None):
+    if prefix:
+        return {"kind": r["kind"], "function": FUNC.get(r["kind"], r["kind"]), "sequence": prefix,
+                "arg_names": ARGN, "expected": expected, "got": got, "oracle": oracle,
+                "what_fails": "the LAST call of the sequence; all calls are made one after the other in one process and share their key / iv / "
+                              "input / output / message buffers and big.Int objects (values overwritten in place between calls)",
+                "how": "write the sequence one call per line (kind TAB a1..a5) and run harness/root/cmd/c05 seq <file> against the tree"}
     o = {"kind": r["kind"], "function": FUNC.get(r["kind"], r["kind"]),
          "args": [r["a1"], r["a2"], r["a3"], r["a4"], r["a5"]],
          "arg_names": ARGN.get(r["kind"], []), "expected": expected, "got": got, "oracle": oracle,
@@ -124,27 +140,55 @@ def run(ctx):
     disagreements = 0
     direct_checked = 0
     samples = []
+    seqs = {}          # sequence number -> calls so far
+    seq_failed = set() # report the first failing step of a sequence only (later steps may just follow from it)
+    seq_sample = None
     for f in C.read_tsv(cases):
-        r = dict(zip(FIELDS, f))
+        r = dict(zip(FIELDS, f + ["-"] * (len(FIELDS) - len(f))))
         evals += 1
         impl = [r["cls"], r["r1"], r["r2"]]
-        nontrivial.add(nontrivial_key(r))
+        nt = nontrivial_key(r)
+        prefix = None
+        sq = None
+        if r["seq"] != "-":
+            sq = r["seq"].split(".")[0]
+            seqs.setdefault(sq, []).append([r["kind"], r["a1"], r["a2"], r["a3"], r["a4"], r["a5"]])
+            prefix = list(seqs[sq])
+            prev = prefix[-2] if len(prefix) > 1 else None
+            # in a sequence what matters is the relation to the previous call through the shared buffers
+            nt = nt + ("seq", prev[0] if prev else "-",
+                       tuple(prev is not None and prev[j] == prefix[-1][j] for j in (1, 2)))
+            if sq in seq_failed:
+                continue
+        nontrivial.add(nt)
         if r["direct"] != "none":
             direct_checked += 1
+        key = key_of(r) if prefix is None else "seq:" + hashlib.sha1(repr(prefix).encode()).hexdigest()[:16]
+        where = describe(r) if prefix is None else \
+            "call %d of a sequence sharing its argument buffers [%s] - %s" % (len(prefix), seq_text(prefix), describe(r))
         if r["direct"] == "fail":
-            C.violation(ctx, key_of(r), "%s: %s; implementation: %s %s" % (describe(r), r["detail"], r["cls"], r["r1"][:80]),
-                        replay_obj(r, r["detail"], " ".join(impl), "direct (textbook IGE / MTProto formula in the harness)"))
+            C.violation(ctx, key, "%s: %s; implementation: %s %s" % (where, r["detail"], r["cls"], r["r1"][:80]),
+                        replay_obj(r, r["detail"], " ".join(impl), "direct (textbook IGE / MTProto formula in the harness)", prefix))
+            if sq:
+                seq_failed.add(sq)
             continue
         m = model.get(r["id"])
         if m != impl:
             disagreements += 1
-            C.violation(ctx, key_of(r),
-                        "%s: Coq model (on which the C05 theorems are proved) gives %s, implementation gives %s"
-                        % (describe(r), " ".join(x[:80] for x in (m or ["<no output>"])), " ".join(x[:80] for x in impl)),
-                        replay_obj(r, " ".join(m or []), " ".join(impl), "model Crypto/IgeMem.v, Crypto/TempKeys.v (extracted)"))
+            C.violation(ctx, key,
+                        "%s: Coq model (on which the C05 theorems are proved; a pure function of the values passed to this call) gives %s, implementation gives %s"
+                        % (where, " ".join(x[:80] for x in (m or ["<no output>"])), " ".join(x[:80] for x in impl)),
+                        replay_obj(r, " ".join(m or []), " ".join(impl), "model Crypto/IgeMem.v, Crypto/TempKeys.v (extracted)", prefix))
+            if sq:
+                seq_failed.add(sq)
+        if prefix is not None and seq_sample is None and len(prefix) == 4:
+            seq_sample = {"kind": "sequence", "calls_sharing_buffers": seq_text(prefix)[:900], "impl_last": [x[:64] for x in impl],
+                          "model_last": [x[:64] for x in (m or [])], "direct_oracle_last": r["direct"]}
         if len(samples) < 7 and r["kind"] not in [s["kind"] for s in samples] and evals > 7:
             samples.append({"kind": r["kind"], "call": describe(r)[:300], "impl": [x[:64] for x in impl], "model": [x[:64] for x in (m or [])],
                             "direct_oracle": r["direct"]})
+    if seq_sample:
+        samples.append(seq_sample)
     cov = C.proof_coverage(
         pr, "make -f Makefile.coq theories/Props/C05.vo (coqc 8.16.1) in /verif/coq",
         ["crypto/aes and crypto/sha1 are Section variables of the theorems (E, D, H) with hypotheses: output lengths 16 / 20, outputs are bytes, "
@@ -160,10 +204,14 @@ def run(ctx):
                  "output buffers shorter/longer than the input, bad key and iv sizes; generateTempKeys for nonces with 0/1/2/3/28..32 (new_nonce) x 0/1/2/13/15/16 "
                  "(server_nonce) leading zero bytes and oversize values; Encrypt/DecryptMessageWithTempKeys for every payload length 0..80 (thorough 0..400): the client's own "
                  "encryption read back by the client and by a reference peer, and the reference peer's ciphertext with the aligning padding 0..15 (random, 00, ff); malformed "
-                 "ciphertexts; generateAESIGE/Encrypt/Decrypt for lengths 0..80 and auth keys around the 128/136 limits; SHA-1 lengths around block boundaries. "
+                 "ciphertexts; generateAESIGE/Encrypt/Decrypt for lengths 0..80 and auth keys around the 128/136 limits; SHA-1 lengths around block boundaries; "
+                 "plus CALL SEQUENCES made in one process that reuse the same key / iv / input / output / message buffers and big.Int objects, overwritten in "
+                 "place between calls (k1,k2,k1.. and iv1,iv2,iv1.. in one backing array, one-bit key changes, refused calls in between, output of one call fed to "
+                 "the next, loops interleaved with the temp-key and message-level wrappers, random mixes over small value pools): every step is compared with the "
+                 "model and the textbook IGE evaluated on the values at call time (ties C05_history_independent to the code). "
                  "distinct non-trivial = distinct (function, data length, buffer lengths, key/iv shape, leading-zero counts of the nonces, padding length)",
          "samples": samples, "input_distribution": stats, "disagreements": disagreements,
-         "direct_oracle_cases": direct_checked, "coqchk": coqchk or "thorough tier only",
+         "direct_oracle_cases": direct_checked, "call_sequences": len(seqs), "calls_in_sequences": sum(len(v) for v in seqs.values()), "coqchk": coqchk or "thorough tier only",
          "projection": "result class ok/err/panic; bytes of the output buffer and of the caller's input buffer after the call (also after err/panic); "
                        "key and iv bytes; never error texts or panic values"})
     return C.finish(ctx, "proof", cov, [
@@ -174,6 +222,32 @@ def run(ctx):
 
 def replay(ctx, path):
     obj = json.load(open(path))
+    if "sequence" in obj:
+        hb = C.build_harness("root", pkg="./cmd/c05")
+        sf = ctx.work + "/replay_seq.txt"
+        with open(sf, "w") as fo:
+            for c in obj["sequence"]:
+                fo.write("\t".join(c) + "\n")
+        rc, out = C.sh([hb, "seq", sf], env=ctx.env())
+        lines = [l.split("\t") for l in out.rstrip("\n").split("\n")]
+        print("call sequence (buffers shared, overwritten in place): %s" % seq_text(obj["sequence"]))
+        last = lines[-1] if lines and len(lines) == len(obj["sequence"]) else ["?", "-", "-", "fail", "harness produced %d result lines" % len(lines)]
+        print("oracle for the last call: %s" % obj.get("expected"))
+        print("got: %s" % " ".join(last[:3]))
+        bad = last[3] == "fail"
+        if not bad:
+            c = obj["sequence"][-1]
+            p = ctx.work + "/replay_case.txt"
+            open(p, "w").write("\t".join(["r1"] + c + last[:3] + ["none", "-", "-"]) + "\n")
+            C.build_model("C05")
+            C.run_model("C05", p, ctx.work + "/replay_model.txt")
+            m = C.read_tsv(ctx.work + "/replay_model.txt")
+            print("model on the values of the last call: %s" % (" ".join(m[0][1:4]) if m else "<none>"))
+            bad = not m or m[0][1:4] != last[:3]
+        if bad:
+            print("VIOLATION property=C05 replay=%s" % path)
+            return 1
+        return 0
     if "args" not in obj:
         print("replay names a broken obligation, re-running the full check")
         return run(ctx)
